@@ -112,3 +112,46 @@ Check C08_encoder_example : cpr_enc 6 52.2572 = 93000%Z /\ cpr_enc (360 # 59) 52
 Print Assumptions C08_encoder_example.
 
 
+
+(** ---- CPR decoding correctness in exact arithmetic, latitude AND longitude (airborne) ---- *)
+From SQ Require Import Base Cpr Update CprProof CprLon.
+From Coq Require Import QArith Qabs.
+Local Open Scope N_scope.
+
+(** the longitude recovered from the standard even/odd encodings of one longitude is within Dlon/2^18 degrees of it (modulo 360), even frame *)
+Theorem C08_longitude_even_correct : forall (NL : Z) (lon : Q) (xz0 xz1 : N), (1 <= NL <= 59)%Z -> Z.of_N xz0 = cpr_enc (360 / inject_Z NL) lon -> Z.of_N xz1 = cpr_enc (360 / inject_Z (Z.max (NL - 1) 1)) lon -> exists k : Z, (Qabs (cpr_lon NL NL xz0 xz1 0 1 - lon - 360 * inject_Z k) <= 360 / inject_Z NL * (1 # 262144))%Q.
+Proof. exact cpr_lon_even_correct. Qed.
+Check C08_longitude_even_correct : forall (NL : Z) (lon : Q) (xz0 xz1 : N), (1 <= NL <= 59)%Z -> Z.of_N xz0 = cpr_enc (360 / inject_Z NL) lon -> Z.of_N xz1 = cpr_enc (360 / inject_Z (Z.max (NL - 1) 1)) lon -> exists k : Z, (Qabs (cpr_lon NL NL xz0 xz1 0 1 - lon - 360 * inject_Z k) <= 360 / inject_Z NL * (1 # 262144))%Q.
+Print Assumptions C08_longitude_even_correct.
+
+(** the same anchored on the odd frame (including NL = 1) *)
+Theorem C08_longitude_odd_correct : forall (NL : Z) (lon : Q) (xz0 xz1 : N), (1 <= NL <= 59)%Z -> Z.of_N xz0 = cpr_enc (360 / inject_Z NL) lon -> Z.of_N xz1 = cpr_enc (360 / inject_Z (Z.max (NL - 1) 1)) lon -> exists k : Z, (Qabs (cpr_lon NL NL xz0 xz1 1 1 - lon - 360 * inject_Z k) <= 360 / inject_Z (Z.max (NL - 1) 1) * (1 # 262144))%Q.
+Proof. exact cpr_lon_odd_correct. Qed.
+Check C08_longitude_odd_correct : forall (NL : Z) (lon : Q) (xz0 xz1 : N), (1 <= NL <= 59)%Z -> Z.of_N xz0 = cpr_enc (360 / inject_Z NL) lon -> Z.of_N xz1 = cpr_enc (360 / inject_Z (Z.max (NL - 1) 1)) lon -> exists k : Z, (Qabs (cpr_lon NL NL xz0 xz1 1 1 - lon - 360 * inject_Z k) <= 360 / inject_Z (Z.max (NL - 1) 1) * (1 # 262144))%Q.
+Print Assumptions C08_longitude_odd_correct.
+
+(** generalisation to two different longitudes (aircraft moved between the frames) within the unambiguous range *)
+Theorem C08_longitude_two_positions : forall (NL : Z) (lonA lonB : Q) (xz0 xz1 : N), (1 <= NL <= 59)%Z -> Z.of_N xz0 = cpr_enc (360 / inject_Z NL) lonA -> Z.of_N xz1 = cpr_enc (360 / inject_Z (Z.max (NL - 1) 1)) lonB -> (Qabs (lonB - lonA) * inject_Z (NL * (NL - 1)) <= 179)%Q -> forall form : N, (form =? 1) = false -> exists k : Z, (Qabs (cpr_lon NL NL xz0 xz1 form 1 - lonA - 360 * inject_Z k) <= 360 / inject_Z NL * (1 # 262144))%Q.
+Proof. exact cpr_lon_even_correct2. Qed.
+Check C08_longitude_two_positions : forall (NL : Z) (lonA lonB : Q) (xz0 xz1 : N), (1 <= NL <= 59)%Z -> Z.of_N xz0 = cpr_enc (360 / inject_Z NL) lonA -> Z.of_N xz1 = cpr_enc (360 / inject_Z (Z.max (NL - 1) 1)) lonB -> (Qabs (lonB - lonA) * inject_Z (NL * (NL - 1)) <= 179)%Q -> forall form : N, (form =? 1) = false -> exists k : Z, (Qabs (cpr_lon NL NL xz0 xz1 form 1 - lonA - 360 * inject_Z k) <= 360 / inject_Z NL * (1 # 262144))%Q.
+Print Assumptions C08_longitude_two_positions.
+
+(** whatever cpr_location returns for the standard encodings of a position with |lat| < 89 is within Dlat/2^18 of the latitude and Dlon/2^18 of the longitude (modulo 360), with longitude in [-180, 180) *)
+Theorem C08_decode_correct : forall (yz0 yz1 xz0 xz1 form : N) (truelat truelon la lo : Q), (-89 < truelat)%Q -> (truelat < 89)%Q -> Z.of_N yz0 = cpr_enc 6 truelat -> Z.of_N yz1 = cpr_enc (360 # 59) truelat -> let NL := nl (cpr_rlat0 yz0 yz1) in Z.of_N xz0 = cpr_enc (360 / inject_Z NL) truelon -> Z.of_N xz1 = cpr_enc (360 / inject_Z (Z.max (NL - 1) 1)) truelon -> cpr_location yz0 yz1 xz0 xz1 form 1 = Some (la, lo) -> (Qabs (la - truelat) <= (if form =? 1 then 360 # 59 else 6) * (1 # 262144))%Q /\ (-180 <= lo < 180)%Q /\ (exists k : Z, (Qabs (lo - truelon - 360 * inject_Z k) <= 360 / inject_Z (if form =? 1 then Z.max (NL - 1) 1 else NL) * (1 # 262144))%Q).
+Proof. exact cpr_location_airborne_correct. Qed.
+Check C08_decode_correct : forall (yz0 yz1 xz0 xz1 form : N) (truelat truelon la lo : Q), (-89 < truelat)%Q -> (truelat < 89)%Q -> Z.of_N yz0 = cpr_enc 6 truelat -> Z.of_N yz1 = cpr_enc (360 # 59) truelat -> let NL := nl (cpr_rlat0 yz0 yz1) in Z.of_N xz0 = cpr_enc (360 / inject_Z NL) truelon -> Z.of_N xz1 = cpr_enc (360 / inject_Z (Z.max (NL - 1) 1)) truelon -> cpr_location yz0 yz1 xz0 xz1 form 1 = Some (la, lo) -> (Qabs (la - truelat) <= (if form =? 1 then 360 # 59 else 6) * (1 # 262144))%Q /\ (-180 <= lo < 180)%Q /\ (exists k : Z, (Qabs (lo - truelon - 360 * inject_Z k) <= 360 / inject_Z (if form =? 1 then Z.max (NL - 1) 1 else NL) * (1 # 262144))%Q).
+Print Assumptions C08_decode_correct.
+
+(** row level: when the two slots hold the DO-260B encodings of one true position and the pair commits, the position shown is within (360/59)/2^18 deg of the true latitude and 360/NL/2^18 deg of the true longitude -- a few metres, for either frame order, anywhere between 89S and 89N *)
+Theorem C08_position_shown_is_correct : forall (obs : option (Q * Q)) (r : row) (tc form : N) (truelat truelon la lo : Q), (-89 < truelat)%Q -> (truelat < 89)%Q -> 9 <= tc <= 18 -> (Z.of_N (cpr_lat0 r), Z.of_N (cpr_lon0 r)) = std_enc0 truelat truelon -> (Z.of_N (cpr_lat1 r), Z.of_N (cpr_lon1 r)) = std_enc1 truelat truelon -> pos_commits r tc form la lo -> let NL := nl (enc_rlat 6 truelat) in let r' := update_position obs r tc form in (Qabs (lat r' - truelat) <= (if form =? 1 then 360 # 59 else 6) * (1 # 262144))%Q /\ (-180 <= lon r' < 180)%Q /\ (exists k : Z, (Qabs (lon r' - truelon - 360 * inject_Z k) <= 360 / inject_Z (if form =? 1 then Z.max (NL - 1) 1 else NL) * (1 # 262144))%Q).
+Proof. exact update_position_airborne_std. Qed.
+Check C08_position_shown_is_correct : forall (obs : option (Q * Q)) (r : row) (tc form : N) (truelat truelon la lo : Q), (-89 < truelat)%Q -> (truelat < 89)%Q -> 9 <= tc <= 18 -> (Z.of_N (cpr_lat0 r), Z.of_N (cpr_lon0 r)) = std_enc0 truelat truelon -> (Z.of_N (cpr_lat1 r), Z.of_N (cpr_lon1 r)) = std_enc1 truelat truelon -> pos_commits r tc form la lo -> let NL := nl (enc_rlat 6 truelat) in let r' := update_position obs r tc form in (Qabs (lat r' - truelat) <= (if form =? 1 then 360 # 59 else 6) * (1 # 262144))%Q /\ (-180 <= lon r' < 180)%Q /\ (exists k : Z, (Qabs (lon r' - truelon - 360 * inject_Z k) <= 360 / inject_Z (if form =? 1 then Z.max (NL - 1) 1 else NL) * (1 # 262144))%Q).
+Print Assumptions C08_position_shown_is_correct.
+
+(** non-vacuity: the textbook position encodes to the textbook fields *)
+Theorem C08_encoder_example_lon : std_enc0 52.2572 3.91937 = (93000%Z, 51372%Z) /\ std_enc1 52.2572 3.91937 = (73974%Z, 49945%Z) /\ match cpr_location 93000 73974 51372 49945 0 1 with | Some (la, lo) => la == 428091 # 8192 /\ lo == 64215 # 16384 | None => False end.
+Proof. exact std_enc_example. Qed.
+Check C08_encoder_example_lon : std_enc0 52.2572 3.91937 = (93000%Z, 51372%Z) /\ std_enc1 52.2572 3.91937 = (73974%Z, 49945%Z) /\ match cpr_location 93000 73974 51372 49945 0 1 with | Some (la, lo) => la == 428091 # 8192 /\ lo == 64215 # 16384 | None => False end.
+Print Assumptions C08_encoder_example_lon.
+
+
